@@ -271,6 +271,24 @@ func intersectC10(c *Ctx) {
 		return
 	}
 	self, other := f.Params[0].Name(), f.Params[1].Name()
+	// the rule reads the outcome off stores `own.<bound> = other.<bound>`
+	candidates := 0
+	for _, b := range f.Blocks {
+		for _, in := range b.Instrs {
+			if st, ok := in.(*ssa.Store); ok {
+				if fa, ok := st.Addr.(*ssa.FieldAddr); ok {
+					if _, vf, ok := fieldRef(st.Val); ok && (vf == "Min" || vf == "Max") {
+						_ = fa
+						candidates++
+					}
+				}
+			}
+		}
+	}
+	if candidates < 2 {
+		c.Unk("C10.intersect", "TimeRange.Intersect", f.Pos(), "the bounds are not replaced by field stores of the other range's bounds: the outcome cannot be read off this shape")
+		return
+	}
 	for _, field := range []string{"Min", "Max"} {
 		for _, oz := range []bool{false, true} {
 			for _, tz := range []bool{false, true} {
